@@ -18,6 +18,7 @@ import (
 	"bytes"
 	"fmt"
 	"reflect"
+	"strings"
 
 	"github.com/New-JAMneration/JAM-Protocol/internal/types"
 )
@@ -83,6 +84,11 @@ type Reader struct {
 // (a count larger than the input is still reported: it is what reaches make()). Lax "impl" = only these tolerances.
 func (r *Reader) tol() bool { return r.Lax != "" }
 
+// mode is Lax without the "+strictblob" option (which keeps reporting a byte
+// string longer than the remaining input although the implementation accepts it:
+// the announced length is what it allocates).
+func (r *Reader) mode() string { return strings.TrimSuffix(r.Lax, "+strictblob") }
+
 type rejectPanic struct{ r *Reject }
 
 func (r *Reader) fail(reason, path, detail string, off int) {
@@ -147,7 +153,7 @@ func (r *Reader) Blob(path string) []byte {
 	off := r.Pos
 	n := r.CompactInt(path)
 	remain := len(r.Data) - r.Pos
-	if n > uint64(remain) && r.tol() && remain > 0 && n < 1<<26 {
+	if n > uint64(remain) && r.tol() && !strings.HasSuffix(r.Lax, "+strictblob") && remain > 0 && n < 1<<26 {
 		return r.Take(remain, path) // short read accepted by the implementation
 	}
 	if n > uint64(remain) {
@@ -249,7 +255,7 @@ func (r *Reader) Value(t reflect.Type, path string) {
 	case tOperand:
 		r.Take(128, path)
 		r.CompactInt(path + ".GasLimit")
-		if r.Lax == "operand" {
+		if r.mode() == "operand" {
 			r.Take(8, path+".GasLimit#second-read") // the implementation reads the gas limit a second time
 		}
 		r.Value(tWorkExecResult, path+".Result")
@@ -304,7 +310,7 @@ func (r *Reader) Value(t reflect.Type, path string) {
 	case typeOf[types.WorkItem]():
 		for i := 0; i < t.NumField(); i++ {
 			name := t.Field(i).Name
-			if name == "ImportSegments" && r.Lax == "workitem" {
+			if name == "ImportSegments" && r.mode() == "workitem" {
 				save := r.Pos
 				if r.CompactInt(path+"."+name) == 0 {
 					return // the implementation returns here
@@ -316,7 +322,7 @@ func (r *Reader) Value(t reflect.Type, path string) {
 		return
 	case tStorage:
 		var n int
-		if r.Lax == "storage" {
+		if r.mode() == "storage" {
 			c := r.CompactInt(path)
 			if c > 1<<20 {
 				r.fail(RCountTooBig, path, "count", r.Pos)
@@ -330,7 +336,7 @@ func (r *Reader) Value(t reflect.Type, path string) {
 			p := fmt.Sprintf("%s[%d]", path, i)
 			off := r.Pos
 			kl := r.CompactInt(p + ".keylen")
-			if kl == 0 && r.Lax == "storage" {
+			if kl == 0 && r.mode() == "storage" {
 				return // the implementation returns here
 			}
 			koff := r.Pos
